@@ -137,6 +137,7 @@ type Exec struct {
 	ucalls     []ucallRec // calls of unknown callees, in execution order
 	arbRegs    map[ssa.Value]Val
 	arbBools   map[string]*Term
+	curBlock   *ssa.BasicBlock // block being executed at inline depth 0
 	stepOutcomes map[int][][2]*Term // loop ordinal -> (guard, reported in the iteration) per back edge
 }
 
@@ -656,6 +657,9 @@ func (x *Exec) runNode(fn *ssa.Function, loops []*Loop, nodes map[nodeKey]*vnode
 		return
 	}
 	st := x.mergeStates(b, live)
+	if x.inlineDepth == 0 {
+		x.curBlock = b
+	}
 	// invariant-cut loop header?
 	for _, l := range loops {
 		if l.Header == b {
@@ -686,6 +690,14 @@ func (x *Exec) runNode(fn *ssa.Function, loops []*Loop, nodes map[nodeKey]*vnode
 			var rs []Val
 			for _, r := range t.Results {
 				rs = append(rs, x.operand(st, r))
+			}
+			if x.inlineDepth == 0 {
+				// a return reached after leaving a loop from inside its body (return, break): its exit clauses
+				for _, l := range loops {
+					if in, ok := st.Ghost[fmt.Sprintf("$inloop%d", l.Ordinal)].(*Term); ok && !in.IsFalse() {
+						x.loopExitObligations(fn, l, st, in)
+					}
+				}
 			}
 			x.returns = append(x.returns, &ReturnPoint{St: st, Results: rs})
 			return
@@ -724,6 +736,16 @@ func (x *Exec) pushEdge(fn *ssa.Function, loops []*Loop, nodes map[nodeKey]*vnod
 	case "node":
 		ns := st.clone()
 		ns.Guard = guard
+		if x.inlineDepth == 0 {
+			// the regular way out of a loop is from its header: the loop is not "left from inside" then
+			for _, l := range loops {
+				if n.Key.B == l.Header && !l.Blocks[vs.To.B] {
+					if _, ok := ns.Ghost[fmt.Sprintf("$inloop%d", l.Ordinal)]; ok {
+						ns.Ghost[fmt.Sprintf("$inloop%d", l.Ordinal)] = x.o.False()
+					}
+				}
+			}
+		}
 		t := nodes[vs.To]
 		t.In = append(t.In, &inEdge{Pred: n.Key.B, St: ns})
 	}
@@ -780,13 +802,13 @@ func (x *Exec) cutLoopAtHeader(fn *ssa.Function, l *Loop, spec *LoopSpec, st *St
 		}
 		st.Regs[phi] = x.freshVal(fmt.Sprintf("loop%d.%s", l.Ordinal, phi.Name()), phi.Type())
 	}
-	if len(spec.Steps) > 0 {
+	if len(spec.Steps)+len(spec.Exits) > 0 {
 		if _, ok := st.Ghost["reports"]; !ok {
 			st.Ghost["reports"] = o.Int(0)
 		}
 	}
 	mods := x.loopMods(l, st)
-	if len(spec.Steps) > 0 {
+	if len(spec.Steps)+len(spec.Exits) > 0 {
 		mods.ghost["reports"] = true
 	}
 	var havockedSlices []SliceVal
@@ -842,8 +864,11 @@ func (x *Exec) cutLoopAtHeader(fn *ssa.Function, l *Loop, spec *LoopSpec, st *St
 			}
 		}
 	}
-	if len(spec.Steps) > 0 {
+	if len(spec.Steps)+len(spec.Exits) > 0 {
 		st.Ghost[fmt.Sprintf("$iter%d.reports", l.Ordinal)] = st.Ghost["reports"]
+	}
+	if len(spec.Exits) > 0 {
+		st.Ghost[fmt.Sprintf("$inloop%d", l.Ordinal)] = o.True()
 	}
 	// 3. assume invariant
 	env = x.loopEnv(fn, l, st)
@@ -853,6 +878,22 @@ func (x *Exec) cutLoopAtHeader(fn *ssa.Function, l *Loop, spec *LoopSpec, st *St
 	if spec.Decreases != nil {
 		v := env.eval(spec.Decreases.E)
 		st.Ghost[fmt.Sprintf("$dec%d", l.Ordinal)] = env.asInt(v, tyInt)
+	}
+}
+
+// loopExitObligations: the loop is left from inside its body on the path st.
+func (x *Exec) loopExitObligations(fn *ssa.Function, l *Loop, st *State, inLoop *Term) {
+	spec := x.loopSpec(l)
+	if spec == nil || len(spec.Exits) == 0 {
+		return
+	}
+	env := x.loopEnv(fn, l, st)
+	env.iterReports, _ = st.Ghost[fmt.Sprintf("$iter%d.reports", l.Ordinal)].(*Term)
+	if env.iterReports == nil {
+		return
+	}
+	for i, ec := range spec.Exits {
+		x.oblige("loop-exit", fmt.Sprintf("loop%d.%d", l.Ordinal, i), ec.Tags, ec.Text, x.o.And(st.Guard, inLoop), x.evalClause(env, ec))
 	}
 }
 
